@@ -88,6 +88,7 @@ pub fn c18_q_angle_code_deterministic() {
 }
 
 /// Sector::points() == contains() for listed small sectors (C05; fixed_point build), symbolic probe
+#[cfg(feature = "c05")]
 #[cfg_attr(kani, kani::proof, kani::unwind(40))]
 pub fn c05_q_g_sectors() {
     let q = point(4) + Point::new(2, 2);
